@@ -37,7 +37,7 @@ Step == /\ l <= Len(T.events)
                      /\ Len(e.after) = Len(net) /\ Len(e.en) = Len(net)
                      /\ \A m \in Mods(net) : Len(e.after[m]) = Len(net[m].rects) /\ ens[m] \subseteq 1..Len(net[m].rects)
                p == Post(net, e.cfg)
-               F == IF ok THEN PostFalse(T.w, net, e.cfg, e.after, ens, [m \in Mods(net) |-> p[m].fused]) ELSE {}
+               F == IF ok THEN PostFalse(T.w, net, e.cfg, e.after, ens) ELSE {}
                tie == \E m \in Mods(net) : p[m].tie
                same == \A m \in Mods(net) : ens[m] = p[m].e /\ \A i \in ens[m] : e.after[m][i] = p[m].rs[i]
            IN /\ cfg' = e.cfg /\ after' = e.after /\ en' = ens
